@@ -132,6 +132,9 @@ func c01Shapes() []Shape {
 }
 
 func classifyEq(prop string, o eqOutcome) string {
+	if o.Sub != "" {
+		return fmt.Sprintf("%s.%s.%s", prop, o.Shape, o.Sub)
+	}
 	return fmt.Sprintf("%s.%s", prop, o.Shape)
 }
 
@@ -162,7 +165,13 @@ func runShapes(r *Run, shapes []Shape, o eqOpts, perShapePaths int) {
 						whys = append(whys, eo.Why)
 					}
 				case "diff":
-					if len(diffs) < 4 {
+					if len(eo.More) > 0 {
+						for _, x := range eo.More {
+							if len(diffs) < 200 {
+								diffs = append(diffs, x)
+							}
+						}
+					} else if len(diffs) < 200 {
 						diffs = append(diffs, eo)
 					}
 				}
@@ -176,19 +185,42 @@ func runShapes(r *Run, shapes []Shape, o eqOpts, perShapePaths int) {
 		if len(whys) > 0 {
 			fmt.Printf("note: shape %s: %d inconclusive paths, e.g. %s\n", sh.Name, inc, whys[0])
 		}
-		seen := map[string]bool{}
+		// group by class; within a class try the candidates until one reproduces
+		var order []string
+		byClass := map[string][]eqOutcome{}
 		for _, d := range diffs {
 			d.Class = classifyEq(r.ID, d)
-			if seen[d.Class] {
-				continue
+			if _, ok := byClass[d.Class]; !ok {
+				order = append(order, d.Class)
 			}
-			seen[d.Class] = true
+			if len(byClass[d.Class]) < 4 {
+				byClass[d.Class] = append(byClass[d.Class], d)
+			}
+		}
+		for _, cl := range order {
 			r.AddCount("disagreements_checked", 1)
-			stdin := ""
-			for _, l := range sh.Stdin {
-				stdin += l + "\n"
+			handled := false
+			var last eqOutcome
+			for _, d := range byClass[cl] {
+				stdin := d.Stdin
+				if stdin == "" {
+					for _, l := range sh.Stdin {
+						stdin += l + "\n"
+					}
+				}
+				pre := sh.Pre
+				if d.Pre != nil {
+					pre = d.Pre
+				}
+				last = d
+				if r.handleEqTry(d, pre, stdin) {
+					handled = true
+					break
+				}
 			}
-			r.handleEq(d, sh.Pre, stdin)
+			if !handled {
+				r.Spurious(fmt.Sprintf("shape %s: candidates of class %s (%s) did not reproduce on bash; last program:\n%s", sh.Name, cl, last.Diff, last.Src))
+			}
 		}
 	}
 }
